@@ -63,8 +63,8 @@ reg("C02", "exploration",
     "completed write through the storage seam the real file is read back and must equal exactly the bytes written; after every successful attempt "
     "the certificate file equals the CA's served body byte for byte and the key file is the CSR's key. Non-trivial = a run in which an existing "
     "file was rewritten.",
-    quick=[("F4", 1000), ("F6", 250)],
-    thorough=[("F4", 50000), ("F6", 10000), ("F6x", 20000)])
+    quick=[("F4", 1000), ("F4c", 48), ("F6", 250)],
+    thorough=[("F4", 50000), ("F4c", 48), ("F6", 10000), ("F6x", 20000)])
 
 reg("C06", "exploration",
     "F4: renewal histories over up to 4000 virtual days: CA lifetimes from already-expired to 10 years, renew_delay/random_early_renew from 0s to "
@@ -72,8 +72,8 @@ reg("C06", "exploration",
     "file removed or the wall clock stepped, jitter source in modes seeded/min/max. Oracle on virtual arrival times: the next attempt begins within "
     "[max(t_eval, notAfter-renew_delay-random_early_renew), max(t_eval, notAfter-renew_delay)] +- (2 s + I/O latency bound). Non-trivial = at least one "
     "evaluation instant (boot or end of a successful attempt) was judged.",
-    quick=[("F4", 1200)],
-    thorough=[("F4", 50000)],
+    quick=[("F4", 1000), ("F4g", 400)],
+    thorough=[("F4", 50000), ("F4g", 400)],
     assumptions=["wall-clock steps are injected only while the daemon is stopped (a step during a sleep makes 'on time' ambiguous)",
                  "evaluations after failed attempts are C07's subject, not C06's"])
 
@@ -82,7 +82,7 @@ reg("C01", "exploration",
     "textual forms, 7 key types with RSA kept rare, 3 digests, random subsets of the 15 subject attributes, kp_reuse x key-file states) x CA-behaviour swarm. "
     "Oracle in the model CA and at the storage seam: newOrder identifiers == the harness's own IDNA / RFC 5952 expectation; CSR parsed from DER: self-signature, "
     "SAN multisets, subject, digest, key type; retransmitted finalize identical; after success the stored key is the CSR's key. Non-trivial = at least one order reached the CA.",
-    quick=[("F1", 1500)], thorough=[("F1", 100000)],
+    quick=[("F1", 1500)], thorough=[("F1", 100000), ("F1s", 40000)],
     assumptions=["IDN inputs restricted to code points for which lower-case-then-Punycode is unambiguously the A-label (no UTS-46 mappings demanded)",
                  "the input-space quantifier is covered by seeded generation only"])
 
@@ -98,7 +98,7 @@ reg("C13", "exploration",
     "F1 with generated mode/owner options (6 owner spellings by name and number, 8 modes, umask in {022,077,027,000}) over create and rewrite; every file the simulated daemon "
     "writes is stat(2)ed on the real scratch tree after the write: mode at creation == configured & ~umask and unchanged by rewrites, uid/gid == configured (own passwd/group reader). "
     "Weakest fit for the technique (no schedule or fault in the statement); claimed because the storage seam performs the real open(2)/chown(2).",
-    quick=[("F1", 1500)], thorough=[("F1", 100000)])
+    quick=[("F1", 1200), ("F1o", 256)], thorough=[("F1", 100000), ("F1o", 256)])
 
 reg("C05", "exploration",
     "F1 (identifier swarm: several names with different challenge types, CA lists authorizations/challenges in any order, offers subsets, pre-valid authorizations, "
